@@ -206,8 +206,16 @@ def check_s3(chk, m, K):
                             for x in paths.subexprs(c):
                                 if x[0] == "ld" and x[1] is not None and ptr_parts(x[1])[0] == fib_root and not ptr_parts(x[1])[2]:
                                     offx = ptr_parts(x[1])[1] - (ptr_parts(node)[1] - K.link_off)
-                                    if offx in (K.fibre["state"][0], K.fibre["priv"][0]) or offx not in [o for o, sz in K.fibre.values()]:
-                                        opaque = x
+                                    if offx not in [o for o, sz in K.fibre.values()]:
+                                        opaque = x          # a member the documented descriptor does not have
+                                    elif offx == K.fibre["state"][0]:
+                                        # a single BIT of the state word tested: a flag kept next to the result code (comparing the
+                                        # whole word with a FIBRE_STATE_* value is the scheduler's ordinary state, not bookkeeping
+                                        # of queue membership, and is no evidence)
+                                        for y in paths.subexprs(c):
+                                            if y[0] == "b" and y[1] == "and" and y[4][0] == "c" and paths.contains(y[3], lambda z: z == x) \
+                                                    and bin(y[4][2]).count("1") == 1:
+                                                opaque = x
                         if opaque is not None and other == "runq":
                             # a bit of the fibre's own state used as "is on the run queue": sound if S11 holds
                             mask = None
